@@ -2,7 +2,7 @@ CONSTANTS
   Diffs = {1, 2}
   MaxHeight = 4
   DropOnReset = TRUE
-  DiffFirst = FALSE
+  DiffFirst = TRUE
 INIT Init
 NEXT Next
 INVARIANT FollowerRoot
